@@ -1,19 +1,20 @@
 (** Executable model of /repo/pkg/bootflow/bootengine/validator:
-    ValidatorActorsAreProtected (the FIXED version: [prevMeasured] is a deep copy
-    taken before the current step's measurements are appended),
-    ValidatorFinalCoverageIsComplete and ValidatorNoIssues, over a projection of
+    ValidatorActorsAreProtected ([prevMeasured] is a deep copy taken before the
+    current step's measurements are appended; an actor is reported only when a
+    BYTE of its code is left after the subtraction),
+    ValidatorFinalCoverageIsComplete (measured and file references are resolved
+    before they are compared) and ValidatorNoIssues, over a projection of
     bootengine.Log.  The reference algebra (References.SortAndMerge / Exclude /
     Resolve, address mappers, fiano ranges) is imported from Model/Refs.v and
     Model/Ranges.v (C11).  No proofs here.
 
     Value-level model: Go slices are lists.  This is exact for one pass over the
-    log as it reads when the pass starts, as long as no range slice of the log
-    with fewer than two elements has spare capacity (References.SortAndMerge
-    appends to the ranges of the first reference of a group in place, and only
-    slices of two or more ranges are re-allocated before; finding
-    C10-shared-backing-append).  The slice-level model Model/ValidatorsHeap.v has
-    no such restriction and also says what a pass does to the memory behind the
-    log; the correspondence check runs both. *)
+    log as it reads when the pass starts: the only writes of the code to memory
+    it does not own are in-place sorts of range arrays of the log
+    (References.SortAndMerge re-allocates before it appends), and every range
+    list is sorted again (stably) wherever it is used.  The slice-level model
+    Model/ValidatorsHeap.v says what a pass does to the memory behind the log; the
+    correspondence check runs both on every case. *)
 From CSS Require Import Lib.Base Model.Ranges Model.Refs.
 
 (** ** The log as the validators see it *)
@@ -52,7 +53,7 @@ Record vissue := mkVI { vi_step : Z; vi_kind : Z; vi_refs : list ref; vi_meas : 
     report a mismatch instead of guessing. *)
 Definition sm (s : list ref) : outcome (list ref) :=
   match s with
-  | [] | [_] => Ok s
+  | [] => Ok []
   | _ =>
       if has_conflict s then Panic
       else
@@ -77,6 +78,9 @@ Definition opt_eqb (a b : option Z) : bool :=
 Definition resolved (s : list ref) : list ref := fst (refs_resolve s).
 Definition resolve_fails (s : list ref) : bool := snd (refs_resolve s).
 
+(** some range of [nonMeasured.Ranges()] has a non-zero length *)
+Definition has_bytes (s : list ref) : bool := existsb (fun r => existsb nonzero (rranges r)) s.
+
 (** ** ValidatorActorsAreProtected.Validate *)
 
 (** What the step contributes once its measurements are merged in:
@@ -98,13 +102,11 @@ Definition vap_actor (idx : Z) (prev cur : list ref) (pa : option Z) (st : step)
             let pa0 := refs_resolve arefs0 in      (* actorRefs.Resolve(), evaluated once *)
             let i2 := if snd pa0 then [mkVI idx 2 [] []] else [] in
             bind (exclude (fst pa0) prev) (fun nm =>
-            match nm with
-            | [] => Ok (i2, Some a)
-            | _ =>
+            if has_bytes nm then
                 let pn := refs_resolve nm in       (* nonMeasured.Resolve() *)
                 let i3 := if snd pn then [mkVI idx 3 [] []] else [] in
                 Ok (i2 ++ i3 ++ [mkVI idx 4 (fst pn) cur], Some a)
-            end))
+            else Ok (i2, Some a)))
         end
   end.
 
@@ -125,38 +127,19 @@ Definition vap (l : list step) : outcome (list vissue) := vap_go 0 [] None l.
 
 (** ** ValidatorFinalCoverageIsComplete.Validate *)
 
-(** the accumulation loop: append the step's references UNRESOLVED, SortAndMerge *)
+(** the accumulation loop: resolve the step's references (an error is ignored:
+    what could not be resolved stays as it is), append, SortAndMerge *)
 Fixpoint vfc_measured (measured : list ref) (l : list step) : outcome (list ref) :=
   match l with
   | [] => Ok measured
-  | st :: t => bind (sm (measured ++ s_meas st)) (fun m => vfc_measured m t)
-  end.
-
-(** What [measured] reads as once [data.References.Exclude(measured...)] returned:
-    Exclude works on a copy of the reference structs, which shares the range
-    arrays.  A list of two or more references went through SortAndMerge before
-    (every array is sorted already); a single reference did not, and fiano's
-    Range.Exclude sorts the array of the exclusion list it is given, which happens
-    iff the two-pointer walk reaches a file reference of the same artifact that
-    has at least one range. *)
-Fixpoint touched (s0 : list ref) (r1 : ref) : bool :=
-  match s0 with
-  | [] => false
-  | r0 :: t0 =>
-      match cmp_ref r0 r1 with
-      | CLt => touched t0 r1
-      | CEq => match rranges r0 with [] => false | _ :: _ => true end
-      | _ => false
-      end
-  end.
-Definition seen_after (frefs measured : list ref) : list ref :=
-  match measured, sm frefs with
-  | [r], Ok s0 => if touched s0 r then [set_ranges r (sort_off (rranges r))] else [r]
-  | _, _ => measured
+  | st :: t => bind (sm (measured ++ resolved (s_meas st))) (fun m => vfc_measured m t)
   end.
 
 (** [files]: what datasources.UEFIFiles(PE32|PIC|TE).Data returned:
-    [Ok refs] (Data.References) or an error. *)
+    [Ok refs] (Data.References) or an error.  The file references are resolved
+    (in place, errors ignored) before [Exclude(measured...)].  [measured] reads
+    the same afterwards: every reference of it went through SortAndMerge, so the
+    arrays Exclude sorts once more are sorted already. *)
 Definition vfc (files : outcome (list ref)) (l : list step) : outcome (list vissue) :=
   match l with
   | [] => Ok []
@@ -165,10 +148,10 @@ Definition vfc (files : outcome (list ref)) (l : list step) : outcome (list viss
       bind (vfc_measured [] l) (fun measured =>
       match files with
       | Ok frefs =>
-          bind (exclude frefs measured) (fun nm =>
+          bind (exclude (resolved frefs) measured) (fun nm =>
           match nm with
           | [] => Ok []
-          | _ => Ok [mkVI last 6 (resolved nm) (resolved (seen_after frefs measured))]
+          | _ => Ok [mkVI last 6 (resolved nm) (resolved measured)]
           end)
       | _ => Ok [mkVI last 5 [] []]
       end)
